@@ -33,6 +33,10 @@ def make_tree(base, rng, npkg=4):
                 if p % 2 == 1 and nm in ("Run", "Work"):
                     f["edit"] = "call"          # slightly different topology: same bucket, lower confidence
                 funcs.append(f)
+            # entropy twins: one shape (one topology / fuzzy hash) with string literals of very different
+            # entropy, spread over all files; the indexed file p0/f0.go holds a low-entropy one.  Whatever
+            # the scanner remembers per topology hash across functions shows up as order dependence.
+            funcs.append({"name": "Ent%d" % fi, "shape": "entlit", "k": (p + fi) % 4, "origin": "ent"})
             for t in range(3):                   # filler of identical shapes => ties everywhere
                 funcs.append({"name": "Fill%d_%d" % (fi, t), "shape": "loop", "k": t % 2, "origin": "x"})
             files["%s/f%d.go" % (pkg, fi)] = gogen.render_file(pkg, funcs)
